@@ -6,6 +6,7 @@ pub mod c02;
 pub mod c03;
 pub mod c04;
 pub mod c05;
+pub mod c06;
 pub mod c07;
 pub mod c11;
 pub mod c12;
@@ -16,5 +17,5 @@ pub mod c16;
 pub mod c17;
 
 pub fn all() -> Vec<PropertyDef> {
-    vec![c02::def(), c03::def(), c04::def(), c05::def(), c07::def(), c11::def(), c12::def(), c13::def(), c14::def(), c15::def(), c16::def(), c17::def()]
+    vec![c02::def(), c03::def(), c04::def(), c05::def(), c06::def(), c07::def(), c11::def(), c12::def(), c13::def(), c14::def(), c15::def(), c16::def(), c17::def()]
 }
